@@ -310,8 +310,94 @@ func c17One(env *Env, m *wvlib.Model, c *C17Case) {
 	env.R.Count("comp:"+c.Comp.Algo, 1)
 }
 
+// c17ResumeBigSkip: whitelisted application WITH saves, stopped at every checkpoint in turn and resumed in a
+// brand-new patcher with the same whitelist; between the two whitelisted patched files lies a skipped file of more
+// than 16 MiB (no checkpoint is popped while files are skipped, so the first checkpoint after the skip refers to a
+// source restart point far behind the reader's offset).
+func c17ResumeBigSkip(env *Env, c *C17Case) {
+	base := env.Scratch.Sub("wlr")
+	defer os.RemoveAll(base)
+	r := wvlib.NewRng(c.Seed)
+	aOld, cOld := r.Bytes(3*wvlib.BS+100), r.Bytes(4*wvlib.BS+7)
+	edit := func(d []byte) []byte {
+		// an insertion inside block 1: block 0 is kept, block 1 is sent, the rest is re-found (several ops per series)
+		e := append([]byte(nil), d...)
+		return append(e[:wvlib.BS+5], append(r.Bytes(100), e[wvlib.BS+5:]...)...)
+	}
+	old := &wvlib.Build{Entries: []wvlib.BEntry{{Path: "a_small.bin", Kind: 'f', Data: aOld}, {Path: "c_last.bin", Kind: 'f', Data: cOld}}}
+	nw := &wvlib.Build{Entries: []wvlib.BEntry{{Path: "a_small.bin", Kind: 'f', Data: edit(aOld)}, {Path: "b_big.bin", Kind: 'f', Data: r.Bytes(17<<20 + 333)}, {Path: "c_last.bin", Kind: 'f', Data: edit(cOld)}}}
+	od, nd := base+"/old", base+"/new"
+	old.Write(od)
+	nw.Write(nd)
+	for _, comp := range []Comp{{"none", 0}, {"brotli", 1}} {
+		res, err := diffDirs(od, nd, comp, nil)
+		if err != nil {
+			env.R.Violate("diff-error", err.Error(), c)
+			return
+		}
+		wl := map[int64]bool{0: true, 2: true}
+		run := func(out string, ck *patcher.Checkpoint, sv *recSaver) error {
+			p, err := patcher.New(seeksource.FromBytes(res.Patch), quietConsumer)
+			if err != nil {
+				return err
+			}
+			p.SetSaveConsumer(sv)
+			p.SetSourceIndexWhitelist(wl)
+			pool := fspool.New(p.GetTargetContainer(), od)
+			fb, err := bowl.NewFreshBowl(bowl.FreshBowlParams{SourceContainer: p.GetSourceContainer(), TargetContainer: p.GetTargetContainer(), TargetPool: pool, OutputFolder: out})
+			if err != nil {
+				return err
+			}
+			if err := p.Resume(ck, pool, fb); err != nil {
+				return err
+			}
+			return fb.Commit()
+		}
+		sv0 := &recSaver{stopAt: -1, every: 1}
+		if err := run(base+"/ref", nil, sv0); err != nil {
+			env.R.Violate("whitelist-apply-error", "with saves: "+err.Error(), c)
+			return
+		}
+		env.R.Count("whitelist-resume:checkpoints:"+comp.Algo, int64(len(sv0.saved)))
+		for k := range sv0.saved {
+			out := fmt.Sprintf("%s/out%d", base, k)
+			sv1 := &recSaver{stopAt: k, every: 1}
+			err := run(out, nil, sv1)
+			if err == nil || k >= len(sv1.saved) {
+				os.RemoveAll(out)
+				continue
+			}
+			ck, derr := decodeCheckpoint(sv1.saved[k])
+			if derr != nil {
+				continue
+			}
+			if err := run(out, ck, &recSaver{stopAt: -1, every: 1}); err != nil {
+				env.R.Violate("whitelist-resume-fails:"+comp.Algo, fmt.Sprintf("stopped at checkpoint %d of %d, resumed with the same whitelist: %v", k, len(sv0.saved), err), c)
+				os.RemoveAll(out)
+				return
+			}
+			for _, name := range []string{"a_small.bin", "c_last.bin"} {
+				got, _ := os.ReadFile(out + "/" + name)
+				if !bytes.Equal(got, nw.Find(name).Data) {
+					env.R.Violate("whitelisted-file-differs-after-resume:"+comp.Algo, fmt.Sprintf("%s after stopping at checkpoint %d and resuming: %d bytes, first difference at %d", name, k, len(got), firstDiffBytes(got, nw.Find(name).Data)), c)
+					os.RemoveAll(out)
+					return
+				}
+			}
+			env.R.Count("whitelist-resume:resumed-ok", 1)
+			os.RemoveAll(out)
+		}
+		os.RemoveAll(base + "/ref")
+	}
+	env.R.Eval(c.Seed^0x77, true)
+}
+
 // c17Synthetic: a skipped bsdiff series whose target is old file #2049 (needs >= 2050 old files).
 func c17Synthetic(env *Env, m *wvlib.Model, c *C17Case) {
+	if c.Synthetic == "whitelist-resume-big-skip" {
+		c17ResumeBigSkip(env, c)
+		return
+	}
 	base := env.Scratch.Sub("syn")
 	defer os.RemoveAll(base)
 	old := &wvlib.Build{}
@@ -392,7 +478,7 @@ func runC17(env *Env) {
 		n = 600
 	}
 	rng := wvlib.NewRng(env.Seed)
-	cases := []*C17Case{{Synthetic: "bsdiff-target-2049", PairCase: PairCase{Seed: 1}}}
+	cases := []*C17Case{{Synthetic: "bsdiff-target-2049", PairCase: PairCase{Seed: 1}}, {Synthetic: "whitelist-resume-big-skip", PairCase: PairCase{Seed: rng.Next()}}}
 	comps := []Comp{{"none", 0}, {"gzip", 1}, {"brotli", 1}}
 	for i := 0; i < n; i++ {
 		cases = append(cases, &C17Case{PairCase: PairCase{Seed: rng.Next(), Opts: wvlib.PairOpts{MaxFiles: 5, SmallOnly: true, Symlinks: true, Triple: i%6 == 0}, Comp: comps[i%3]}, Optimized: i%2 == 1})
